@@ -13,6 +13,7 @@ import VhostModel.SpecDrv.BeSrv
 import VhostModel.SpecDrv.Gpu
 import VhostModel.SpecDrv.Ring
 import VhostModel.SpecDrv.Worker
+import VhostModel.SpecDrv.Shutdown
 /-! Spec driver: evaluates the property's own rule on a scenario (and, for behavioural families, on
 the observation the implementation produced). Imports nothing generated from /repo. -/
 
@@ -34,6 +35,7 @@ def dispatch (line : String) : String :=
   | "gpu" :: _ => SpecDrv.Gpu.run toks
   | "ring" :: _ => SpecDrv.Ring.run toks
   | "worker" :: _ => SpecDrv.Worker.run toks
+  | "shutdown" :: _ => SpecDrv.Shutdown.run toks
   | _ => "bad-family"
 
 partial def loop (h : IO.FS.Stream) (out : IO.FS.Stream) : IO Unit := do
